@@ -150,19 +150,19 @@ def names_ids(U, str_names=True):
             if (str_names and not isinstance(obj.name, str)) or obj.name == "" or obj.name is None:
                 return ("names.nonempty", "obj#%d has name %r" % (i, obj.name))
         if knd in ("doc", "sec"):
-            seen = {}
+            seen = []       # (a reader may hand back a name that is no text and cannot be hashed)
             for ch in list(obj.sections):
-                if ch.name in seen and seen[ch.name] is not ch:
+                if any(nm == ch.name and other is not ch for nm, other in seen):
                     return ("names.unique-sections",
                             "obj#%d has two child Sections named %r" % (i, ch.name))
-                seen[ch.name] = ch
+                seen.append((ch.name, ch))
         if knd == "sec":
-            seen = {}
+            seen = []
             for ch in list(obj.properties):
-                if ch.name in seen and seen[ch.name] is not ch:
+                if any(nm == ch.name and other is not ch for nm, other in seen):
                     return ("names.unique-properties",
                             "obj#%d has two Properties named %r" % (i, ch.name))
-                seen[ch.name] = ch
+                seen.append((ch.name, ch))
     return None
 
 
